@@ -209,7 +209,7 @@ SHAPE_EXPECT = {
 
 def run_common(ctx, which):
     rng, tier = ctx["rng"], ctx["tier"]
-    n = 40 if tier == "quick" else 700
+    n = int((40 if tier == "quick" else 700) * ctx.get("mult", 1))
     hashseeds = [0, 1] if tier == "quick" else [0, 1, 2, 3]
     if ctx.get("replay"):
         cases = [f["case"] for f in ctx["replay"]["failing"] if "case" in f]
